@@ -38,16 +38,26 @@ for pid in sorted(props):
             earlier.append(f"- {m.get('what','')} [files: {fs}]")
         t+='\n\nEARLIER behaviour-preserving changes already made for this property (do something of a DIFFERENT kind, and if possible in different functions among the anchors — the property\'s mechanisms list several places; also the functions those call):\n'+'\n'.join(earlier)
         focus={
- 'C01':'RecordImages.IsEmptyImage / RoundRecordImage.IsEmpty in pkg/datasource/sql/types/image.go and the early returns of BaseUndoLogManager.FlushUndoLog (pkg/datasource/sql/undo/base/undo.go)',
- 'C02':'ATTx.commitOnAT / rollbackOnCommitFailure in pkg/datasource/sql/tx_at.go and Tx.Commit / Tx.Rollback / commitOnLocal in pkg/datasource/sql/tx.go',
- 'C05':'TCCResourceManager.getBusinessActionContext and its two callers in pkg/rm/tcc/tcc_resource.go',
- 'C08':'ColumnImage.MarshalJSON / UnmarshalJSON (time and text handling) in pkg/datasource/sql/types/image.go',
- 'C14':'GettyRemotingClient.syncCallback / asyncCallback (pkg/remoting/getty/getty_client.go) and NotifyRpcMessageResponse / RemoveMessageFuture (getty_remoting.go)',
- 'C16':'ATTx.commitOnAT and Tx.Commit / commitOnLocal (pkg/datasource/sql/tx_at.go, tx.go)',
- 'C17':'XABranchXid (String, options, XaIdBuild) in pkg/datasource/sql/xa_branch_xid.go / xa_xid_builder.go',
- 'C18':'insertExecutor.parsePkValuesFromStatement / getPkValuesByColumn / getInsertRows in pkg/datasource/sql/exec/at/insert_executor.go and insertOnUpdateExecutor.buildBeforeImageSQLParameters',
- 'C19':'Consistent.pick / refreshHashCircle (consistent_hash_loadbalance.go) and SessionManager.selectSession (pkg/remoting/getty/session_manager.go)',
- 'C20':'BaseTableMetaCache.refresh / scanExpire / GetTableMeta in pkg/datasource/sql/datasource/base/meta_cache.go',
+ 'C01':'the three undo executors ExecuteOn / buildUndoSQL (pkg/datasource/sql/undo/executor/mysql_undo_*_executor.go) and the replay loop of BaseUndoLogManager.Undo',
+ 'C02':'Tx.register and Tx.report (pkg/datasource/sql/tx.go) and Conn.BeginTx / newTx (conn.go)',
+ 'C03':'baseExecutor.buildLockKey (base_executor.go), selectForUpdateExecutor.ExecContext / doExecContext, and the join of lock keys in Tx.register',
+ 'C04':'GlobalTransactionManager.Begin / Commit / Rollback (pkg/tm/global_transaction.go) and commitOrRollback',
+ 'C05':'TCCServiceProxy.Prepare / registeBranch (pkg/rm/tcc/tcc_service.go) and the parameter/context extraction helpers it uses',
+ 'C06':'WithFence / DoFence and the fence transaction handling in pkg/rm/tcc/fence (fence_api.go, fence_driver*.go)',
+ 'C07':'begin() and its propagation switch, beginNewGtx / useExistGtx (pkg/tm/transaction_executor.go) and the grpc / dubbo integrations',
+ 'C08':'the undo-log parsers (pkg/datasource/sql/undo/parser/*.go) and BaseUndoLogManager.serializeBranchUndoLog / getRollbackInfo / encodeUndoLogCtx / decodeUndoLogCtx',
+ 'C09':'IsRecordsEquals / compareRows / DeepEqual and the row-key building in pkg/datasource/sql/undo/executor/utils.go and pkg/datasource/sql/datasource/utils.go',
+ 'C10':'the marker logic of BaseUndoLogManager.Undo (exists / InsertUndoLogWithGlobalFinished / DeleteUndoLog) and InsertUndoLog',
+ 'C11':'AsyncWorker.dealWithGroupedContexts and BaseUndoLogManager.BatchDeleteUndoLog',
+ 'C12':'the codecs of BranchRegisterRequest / BranchReportRequest / GlobalStatus / RegisterRM and the helpers in pkg/util/bytes',
+ 'C13':'RpcPackageHandler.Read / Write / encodeHeapMap / decodeHeapMap (pkg/remoting/getty/readwriter.go)',
+ 'C14':'GettyRemotingClient.SendSyncRequest / SendAsyncRequest / SendAsyncResponse and GettyRemoting.SendSync / SendAsync / sendAsync',
+ 'C15':'rmBranchCommitProcessor.Process / rmBranchRollbackProcessor.Process and ResourceManagerCache.GetResourceManager',
+ 'C16':'ATConn / XAConn ExecContext, QueryContext, PrepareContext and Conn.BeginTx / ResetSession',
+ 'C17':'XAConn.BeginTx / Commit / Rollback / XaCommit / XaRollback and XAResourceManager.BranchCommit / BranchRollback',
+ 'C18':'updateExecutor / deleteExecutor buildBeforeImageSQL and baseExecutor.buildSelectArgs / traversalArgs',
+ 'C19':'LeastActiveLoadBalance / RoundRobinLoadBalance / XidLoadBalance and the listener OnOpen / OnClose',
+ 'C20':'RegisterTxHook / CleanTxHooks and their readers, SessionManager register/release, AsyncWorker buffer handling',
         }
         if pid in focus:
             t+='\n\nFOR THIS ROUND please work on (one or more of) these functions, which earlier rounds left alone: '+focus[pid]+'. Typical candidates: turn a loop into a helper predicate or the reverse, split a function, merge two early returns, move a clean-up into a defer (or out of one), replace string concatenation by a builder or fmt, hoist a lock/unlock pair into a helper method, turn a closure into a method — exactly behaviour-preserving.'
